@@ -30,6 +30,20 @@ var repoDir = "/repo"
 
 var replayTemplates = []*replayTemplate{
 	{
+		name: "core_negative_reconnect.go.tmpl",
+		match: func(o *Obligation) bool {
+			return o.Kind == "post" && o.Func == "(*internal/core.socket).SetOption" && strings.Contains(o.Note, "ReconnectTime ==>") && strings.Contains(o.Note, "int_of(value) >= 0")
+		},
+		run: func(g *Gen, o *Obligation, model map[string]string) (bool, string) {
+			opt := "mangos.OptionReconnectTime"
+			if strings.Contains(o.Note, "OptionMaxReconnectTime") {
+				opt = "mangos.OptionMaxReconnectTime"
+			}
+			v := modelInt(model, "value.int", -1)
+			return runReplay("transport/tcp", "core_negative_reconnect.go.tmpl", map[string]string{"OPTION": opt, "VALUE": fmt.Sprint(v)}, "TestZZReplayNegativeReconnect")
+		},
+	},
+	{
 		name: "xreq_send_after_close.go.tmpl",
 		match: func(o *Obligation) bool {
 			return o.Kind == "post" && o.Func == "(*protocol/xreq.socket).SendMsg" && strings.Contains(o.Note, "cl ==> result == protocol.ErrClosed")
